@@ -123,9 +123,50 @@ def test_merge():
     return len(cases), bad
 
 
+REGEX_OPS = [
+    (r"[ \t\n]+and[ \t\n]+", re.IGNORECASE), (r"x*", 0), (r"(a)|b", 0), (r"\s+", 0), (r"\bAnd\b", re.IGNORECASE), (r"^a|a$", re.MULTILINE),
+    (r"(?P<k>\w+)=(\d*)", re.ASCII), (r"[^a-c]", re.IGNORECASE), (r".", re.DOTALL), (r"a.?b", 0), (r"(?<!\\)\{", 0), (r"\$.*[^\\]\$", 0),
+    (r"@(\w+[-.:+]?)*( |\t)*(?={)", 0), (r"^[0-9]+$", 0), (r"\r\n|\r", 0),
+]
+
+
+def test_regex_ops(n=2500, seed=1):
+    """split / sub / findall / finditer / search / fullmatch of the model against CPython on concrete strings, incl. empty
+    matches, IGNORECASE / ASCII / DOTALL / MULTILINE, word boundaries, groups"""
+    from pysym.regex import regex_split, regex_sub, regex_findall, regex_once, all_matches
+    rnd = random.Random(seed)
+    sigma = 'aAbnNdDx \t\n\r=1{$\\@-\u017f\u212a'
+    eng = Engine()
+    W = type("W", (), {"mut": 0})()
+    bad = 0
+    for _ in range(n):
+        pat, fl = rnd.choice(REGEX_OPS)
+        s = "".join(rnd.choice(sigma) for _ in range(rnd.randint(0, 10)))
+        rx = re.compile(pat, fl)
+        cnt = rnd.choice((0, 0, 1, 2))
+        pairs = [
+            ("split", rx.split(s, cnt), regex_split(eng.I, W, rx, s, cnt)),
+            ("findall", rx.findall(s), regex_findall(eng.I, W, rx, s)),
+            ("sub", rx.sub(r"<\g<0>>", s, cnt), regex_sub(eng.I, W, rx, r"<\g<0>>", s, cnt)),
+            ("subn", rx.subn("-", s), regex_sub(eng.I, W, rx, "-", s, 0, 0, True)),
+            ("spans", [m.span() for m in rx.finditer(s)], [(m.s, m.e) for m in all_matches(eng.I, W, rx.pattern, s, int(rx.flags & ~re.UNICODE))]),
+        ]
+        for kind in ("match", "search", "fullmatch"):
+            r = getattr(rx, kind)(s)
+            g = regex_once(eng.I, W, kind, rx, s, 0)
+            pairs.append((kind, None if r is None else (r.span(), r.groups()),
+                          None if g is None else ((g.s, g.e), tuple(None if sp is None else s[sp[0]:sp[1]] for sp in g.groups_))))
+        for kind, real, got in pairs:
+            if real != got:
+                bad += 1
+                if bad < 6:
+                    print("regex op mismatch", kind, repr(pat), fl, repr(s), "model", got, "re", real)
+    return n * 8, bad
+
+
 def main():
     total_bad = 0
-    for name, f in (("regex-model", test_regex), ("concrete-conformance", test_conformance), ("merge-equivalence", test_merge)):
+    for name, f in (("regex-model", test_regex), ("regex-operations", test_regex_ops), ("concrete-conformance", test_conformance), ("merge-equivalence", test_merge)):
         n, bad = f()
         print(f"selftest {name}: {n} cases, {bad} disagreements")
         total_bad += bad
